@@ -26,7 +26,9 @@ pub struct QSpec { pub vars: Vec<String>, pub distinct: bool, pub body: Vec<Elem
 #[derive(Serialize, Deserialize, Clone, Debug)]
 pub struct Variant { pub perm_seed: u64, pub stats: u8, pub plan_mode: u8, pub plan_seed: u64, pub pool: usize, pub rayon_seed: u64, pub hash_seed: u64 }
 #[derive(Serialize, Deserialize, Clone, Debug)]
-pub struct PlanCase { pub hash_seed: u64, pub quads: Vec<(String, String, String, Option<String>)>, pub empty_graphs: Vec<String>, pub stale_extra: Vec<(String, String, String)>, pub stale_missing: usize, pub query: QSpec, pub variants: Vec<Variant> }
+pub struct PlanCase { pub hash_seed: u64, pub quads: Vec<(String, String, String, Option<String>)>, pub empty_graphs: Vec<String>, pub stale_extra: Vec<(String, String, String)>, pub stale_missing: usize, pub query: QSpec, pub variants: Vec<Variant>,
+    /// quads that were inserted and deleted again before the first query (every index has to forget them)
+    #[serde(default)] pub deleted: Vec<(String, String, String, Option<String>)> }
 pub struct C02;
 
 // ---------------------------------------------------------------- rendering
@@ -142,7 +144,7 @@ fn all_vars(es: &[Elem], out: &mut Vec<String>) {
 impl Prop for C02 {
     type Case = PlanCase;
     fn id(&self) -> &'static str { "C02" }
-    fn expected_counters(&self) -> Vec<&'static str> { vec!["fault.statistics_fresh", "fault.statistics_stale", "fault.statistics_empty", "fault.statistics_adversarial", "fault.plan_all_bind_joins", "fault.plan_all_hash_joins", "fault.plan_all_nested_loop_joins", "fault.plan_mixed_joins", "fault.plan_scan_kind_swapped", "fault.bgp_permuted", "probe.intermediate_result_over_64_rows"] }
+    fn expected_counters(&self) -> Vec<&'static str> { vec!["fault.statistics_fresh", "fault.statistics_stale", "fault.statistics_empty", "fault.statistics_adversarial", "fault.plan_all_bind_joins", "fault.plan_all_hash_joins", "fault.plan_all_nested_loop_joins", "fault.plan_mixed_joins", "fault.plan_scan_kind_swapped", "fault.bgp_permuted", "probe.quads_inserted_and_deleted_before_the_queries", "probe.intermediate_result_over_64_rows"] }
     fn budget(&self, tier: Tier) -> Budget { match tier { Tier::Quick => Budget { runs: 3000, wall_s: 60, recheck: 20 }, Tier::Thorough => Budget { runs: 150_000, wall_s: 1000, recheck: 60 } } }
     fn hash_seed(&self, c: &PlanCase) -> u64 { c.hash_seed }
     fn gen(&self, seed: u64, _i: u64, tier: Tier) -> PlanCase {
@@ -177,12 +179,24 @@ impl Prop for C02 {
             from: if use_from { (0..(1 + r.usize(2))).map(|_| format!("http://e/g{}", r.below(3))).collect() } else { vec![] }, from_named: if use_from && r.chance(1, 2) { vec![format!("http://e/g{}", r.below(3))] } else { vec![] }, agg };
         let nvar = if tier == Tier::Quick { 8 + vr.usize(6) } else { 12 + vr.usize(12) };
         let variants = (0..nvar).map(|i| Variant { perm_seed: if i % 3 == 2 { 0 } else { vr.next() | 1 }, stats: vr.below(4) as u8, plan_mode: if plain && i % 2 == 1 { 1 + vr.below(5) as u8 } else { 0 }, plan_seed: vr.next(), pool: *vr.pick(&[1, 2, 3, 4, 8, 16, 16, 67, 128, 300]), rayon_seed: vr.next(), hash_seed: vr.next() }).collect();
-        PlanCase { hash_seed: Rng::sub(seed, "hash").next(), quads, empty_graphs, stale_extra, stale_missing: r.usize(20), query, variants }
+        let deleted = if cfg.chance(1, 3) { (0..(2 + r.usize(12))).map(|_| (format!("http://e/n{}", r.below(v.nn)), format!("http://e/p{}", r.below(v.np)), format!("http://e/n{}", r.below(v.nn)), if r.chance(1, 4) { Some(format!("http://e/g{}", r.below(3))) } else { None })).collect() } else { vec![] };
+        PlanCase { hash_seed: Rng::sub(seed, "hash").next(), quads, empty_graphs, stale_extra, stale_missing: r.usize(20), query, variants, deleted }
     }
     fn exec(&self, c: &PlanCase, ctx: &mut Ctx) -> Option<Violation> {
         let mut db = SparqlDatabase::new();
         for (s, p, o, g) in &c.quads { match g { None => db.add_triple_parts(s, p, o), Some(g) => { let lit = !o.starts_with("http://"); db.add_quad_parts(&format!("<{}>", s), &format!("<{}>", p), &if lit { format!("\"{}\"", o) } else { format!("<{}>", o) }, g); } } }
         for g in &c.empty_graphs { let id = db.dictionary.write().unwrap().encode(g); db.dataset_index.create_graph(GraphId::Named(id)); }
+        // a history: some quads are added and deleted again (through the store API), unless the dataset also holds them for good
+        if !c.deleted.is_empty() {
+            let keep: std::collections::BTreeSet<&(String, String, String, Option<String>)> = c.quads.iter().collect();
+            for q in c.deleted.iter().filter(|q| !keep.contains(q)) {
+                let (s, p, o, g) = q;
+                match g { None => db.add_triple_parts(s, p, o), Some(g) => { let lit = !o.starts_with("http://"); db.add_quad_parts(&format!("<{}>", s), &format!("<{}>", p), &if lit { format!("\"{}\"", o) } else { format!("<{}>", o) }, g); } }
+            }
+            let ids: Vec<Quad> = { let d = db.dictionary.read().unwrap(); c.deleted.iter().filter(|q| !keep.contains(q)).filter_map(|(s, p, o, g)| Some(Quad { subject: *d.string_to_id.get(s)?, predicate: *d.string_to_id.get(p)?, object: *d.string_to_id.get(o)?, graph: match g { None => GraphId::Default, Some(g) => GraphId::Named(*d.string_to_id.get(g)?) } })).collect() };
+            for q in &ids { db.dataset_index.delete_quad(q); }
+            ctx.hit("probe.quads_inserted_and_deleted_before_the_queries");
+        }
         let fresh = { db.invalidate_stats_cache(); db.get_or_build_stats() };
         // stale statistics: gathered on a dataset that had extra quads and lacked some of the current ones
         let stale = { let mut tmp = db.clone(); tmp.cached_stats = None; for (s, p, o) in &c.stale_extra { tmp.add_triple_parts(s, p, o); } let all = tmp.dataset_index.all_quads(); for q in all.iter().take(c.stale_missing) { tmp.dataset_index.delete_quad(q); } tmp.get_or_build_stats() };
